@@ -300,38 +300,45 @@ def enclosing_loops(fn: FunctionInfo, node: ast.AST) -> T.List[ast.AST]:
 # --------------------------------------------------------------------------- wiring
 def check_passthrough(ctx, rule: str, caller_fq: str, callee_fq: str, expected: T.Dict[str, T.Any],
                       floor: int = 1, what_prefix: str = "") -> int:
-    """At every call of callee in caller, parameter p must receive the expression whose
-    (alias-resolved) text is expected[p] (a string, or a predicate on (fn, expr))."""
+    """Along every call chain caller -> (helpers) -> callee, parameter p must receive the expression whose text
+    (single-assignment locals inlined) is expected[p] - a string, a tuple of alternative strings, or a predicate
+    on (fn, inlined expr)."""
     prog: Program = ctx.prog
     caller = prog.function(caller_fq)
     callee = prog.function(callee_fq)
     ctx.visit(caller_fq, callee_fq)
-    calls = find_calls(prog, caller, callee_fq)
-    if len(calls) < floor:
-        raise AnalysisError(f"{ctx.prop}/{rule}: {caller_fq} calls {callee_fq} {len(calls)} time(s), expected >= {floor}")
-    for call in calls:
-        for p, exp in expected.items():
-            arg = call_arg(call, callee, p)
-            if arg is None and p in callee.defaults:
-                arg_txt = "<default " + unparse(callee.defaults[p]) + ">"
-                arg_res: T.Optional[ast.AST] = callee.defaults[p]
-            elif arg is None:
-                arg_txt, arg_res = "<missing>", None
-            else:
-                arg_res = resolve_alias(caller, arg)
-                arg_txt = unparse(arg)
+    n_sites = 0
+    for p, exp in expected.items():
+        traces = trace_param(prog, caller, callee_fq, p)
+        if not traces:
+            if p in callee.all_params or callee.kwarg:
+                raise AnalysisError(f"{ctx.prop}/{rule}: no call chain {caller_fq} -> {callee_fq} found for parameter `{p}`")
+        n_sites = max(n_sites, len(traces))
+        for expr, call, chain in traces:
+            txt = unparse(expr)
             if callable(exp):
-                good = arg_res is not None and bool(exp(caller, arg_res))
+                good = bool(exp(caller, expr))
                 exp_txt = getattr(exp, "__doc__", None) or "predicate"
             else:
-                good = arg_res is not None and ((arg is not None and unparse(arg) == exp) or unparse(arg_res) == exp)
-                exp_txt = exp
+                alts = (exp,) if isinstance(exp, str) else tuple(exp)
+                # the expectation may itself be written with caller locals: inline it the same way
+                alt_txts = set(alts)
+                for a_ in alts:
+                    try:
+                        alt_txts.add(unparse(inline(caller, ast.parse(a_, mode="eval").body, prog)))
+                    except SyntaxError:
+                        pass
+                good = txt in alt_txts
+                exp_txt = alts[0]
+            via = "" if len(chain) == 2 else f" via {' -> '.join(c.split('.')[-1] for c in chain[1:-1])}"
             ctx.check(rule, good,
-                      f"{what_prefix}{caller_fq} L{call.lineno}: {callee.qualname}({p}=...) receives `{exp_txt}`",
+                      f"{what_prefix}{caller_fq} L{call.lineno}: {callee.qualname}({p}=...) receives `{exp_txt}`{via}",
                       f"{caller_fq} -> {callee_fq}: parameter `{p}` is not wired to `{exp_txt}`",
-                      f"call at L{call.lineno} passes `{arg_txt}` for `{p}`, expected `{exp_txt}`",
+                      f"call at L{call.lineno} passes `{txt[:100]}` for `{p}`, expected `{exp_txt}`",
                       loc=caller.loc(call))
-    return len(calls)
+    if n_sites < floor:
+        raise AnalysisError(f"{ctx.prop}/{rule}: {caller_fq} reaches {callee_fq} {n_sites} time(s), expected >= {floor}")
+    return n_sites
 
 
 def tainted_names(fn: FunctionInfo, sources: T.Set[str], sanitisers: T.Set[str] = frozenset()) -> T.Set[str]:
@@ -452,3 +459,124 @@ def name_guard(ctx, fn, call: ast.Call) -> T.Optional[str]:
     if r.implies(~BF.var(atom)):
         return "hg"
     return None
+
+
+# --------------------------------------------------------------------------- inlining (robustness to local aliases)
+def iter_assigns(root: ast.AST) -> T.Iterator[T.Tuple[ast.AST, ast.AST, ast.AST]]:
+    """(statement, target, value) for Assign (each target) and AnnAssign with a value."""
+    for n in ast.walk(root):
+        if isinstance(n, ast.Assign):
+            for t in n.targets:
+                yield n, t, n.value
+        elif isinstance(n, ast.AnnAssign) and n.value is not None:
+            yield n, n.target, n.value
+
+
+def _module_const_ast(prog: T.Optional[Program], fn: FunctionInfo, name: str) -> T.Optional[ast.AST]:
+    """AST of a module-level constant that is a plain literal (str / tuple / list of literals), possibly imported."""
+    mod = fn.module
+    cand = None
+    if name in mod.consts and len(mod.consts[name]) == 1:
+        cand = mod.consts[name][0]
+    elif prog is not None:
+        imp = mod.imports.get(name)
+        if imp and imp[0] == "name" and imp[1] in prog.modules and imp[2] in prog.modules[imp[1]].consts and len(prog.modules[imp[1]].consts[imp[2]]) == 1:
+            cand = prog.modules[imp[1]].consts[imp[2]][0]
+    if cand is None:
+        return None
+    def lit(e: ast.AST) -> bool:
+        if isinstance(e, ast.Constant):
+            return True
+        if isinstance(e, (ast.Tuple, ast.List, ast.Set)):
+            return all(lit(x) for x in e.elts)
+        return False
+    return cand if lit(cand) else None
+
+
+def inline(fn: FunctionInfo, expr: ast.AST, prog: T.Optional[Program] = None, depth: int = 6, consts: bool = True) -> ast.AST:
+    """Copy of expr with single-assignment locals replaced by their defining expressions (recursively) and
+    literal module constants replaced by their literals.  Parameters and multiply-assigned names stay."""
+    import copy
+    memo: T.Dict[str, T.Optional[ast.AST]] = {}
+
+    def defn(name: str) -> T.Optional[ast.AST]:
+        if name in memo:
+            return memo[name]
+        memo[name] = None
+        if name in fn.all_params:
+            return None
+        d = local_defs(fn, name)
+        if len(d) == 1 and d[0][1] is not None and isinstance(d[0][0], (ast.Assign, ast.AnnAssign)):
+            v = d[0][1]
+            if name not in {x.id for x in ast.walk(v) if isinstance(x, ast.Name)}:
+                memo[name] = v
+        elif not d and consts:
+            memo[name] = _module_const_ast(prog, fn, name)
+        return memo[name]
+
+    class Tr(ast.NodeTransformer):
+        def __init__(self, budget: int):
+            self.budget = budget
+
+        def visit_Name(self, node: ast.Name) -> ast.AST:
+            if isinstance(node.ctx, ast.Load) and self.budget > 0:
+                v = defn(node.id)
+                if v is not None:
+                    return Tr(self.budget - 1).visit(copy.deepcopy(v))
+            return node
+
+        def visit_Lambda(self, node: ast.Lambda) -> ast.AST:
+            return node
+
+    return Tr(depth).visit(copy.deepcopy(expr))
+
+
+def inline_text(fn: FunctionInfo, expr: ast.AST, prog: T.Optional[Program] = None) -> str:
+    return unparse(inline(fn, expr, prog))
+
+
+def trace_param(prog: Program, caller: FunctionInfo, callee_fq: str, param: str, depth: int = 3,
+                _seen: T.Optional[T.Set[str]] = None) -> T.List[T.Tuple[ast.AST, ast.Call, T.List[str]]]:
+    """Expressions (in caller's vocabulary, locals inlined) that reach `param` of callee along call chains
+    caller -> (private helpers)* -> callee.  Returns [(expr, outermost call in caller, chain)]."""
+    seen = _seen or set()
+    out: T.List[T.Tuple[ast.AST, ast.Call, T.List[str]]] = []
+    callee = prog.function(callee_fq)
+    direct = find_calls(prog, caller, callee_fq)
+    for c in direct:
+        arg = call_arg(c, callee, param)
+        if arg is None and param in callee.defaults:
+            arg = callee.defaults[param]
+        if arg is not None:
+            out.append((inline(caller, arg, prog), c, [caller.fq, callee_fq]))
+    if direct or depth <= 0:
+        return out
+    # through helpers: internal functions called by caller that (transitively) call callee
+    for call, t in prog.calls_in(caller):
+        if t.kind != "func" or t.fn is None or t.fn.fq in seen or t.fn.fq == caller.fq:
+            continue
+        h = t.fn
+        sub = trace_param(prog, h, callee_fq, param, depth - 1, seen | {caller.fq})
+        for expr, _c, chain in sub:
+            # substitute h's parameters by the arguments of `call`
+            import copy
+            mapping: T.Dict[str, ast.AST] = {}
+            for p in h.all_params:
+                a = call_arg(call, h, p)
+                if a is None and p in h.defaults:
+                    a = h.defaults[p]
+                if a is not None:
+                    mapping[p] = a
+
+            class Sub(ast.NodeTransformer):
+                def visit_Name(self, node: ast.Name) -> ast.AST:
+                    if node.id in mapping:
+                        return copy.deepcopy(mapping[node.id])
+                    return node
+            e2 = Sub().visit(copy.deepcopy(expr))
+            out.append((inline(caller, e2, prog), call, [caller.fq] + chain))
+    return out
+
+
+def calls_transitively(prog: Program, effects: T.Any, caller_fq: str, callee_fq: str) -> bool:
+    return callee_fq in effects.reachable_functions([caller_fq])
